@@ -27,8 +27,8 @@ fn run_partition(packets: &[Vec<u8>], mask: u32) -> (String, Snap, usize) {
 
 /// packets that make a cache LARGE: one V9 template flowset with 1 100 templates (ids 1000..2099), the same as 1 100
 /// IPFIX template sets, V9 options templates, data for the first / last of those ids, and a V5 packet
-const BIG: usize = 10;
-const BIG_NAMES: [&str; BIG] = ["V9-T x1100 (ids 1000..2099)", "V9-D(1000)", "V9-D(2099)", "IPFIX-T x1100 (ids 1000..2099)", "IPFIX-D(1000)", "IPFIX-D(2099)", "V9-OT x1100 (ids 3000..4099)", "V5x1", "V9-OT without scope and without options (id 4500)", "V9-D(4500)"];
+const BIG: usize = 13;
+const BIG_NAMES: [&str; BIG] = ["V9-T x1100 (ids 1000..2099)", "V9-D(1000)", "V9-D(2099)", "IPFIX-T x1100 (ids 1000..2099)", "IPFIX-D(1000)", "IPFIX-D(2099)", "V9-OT x1100 (ids 3000..4099)", "V5x1", "V9-OT without scope and without options (id 4500)", "V9-D(4500)", "V9-OT(4600, layout X)+data", "V9-OT(4600, layout Y)+data", "V9-T(4600)+data"];
 fn big_packet(k: usize, salt: usize) -> Vec<u8> {
     use crate::wire::*;
     let f = vec![fs(1, 4), fs(2, 4)];
@@ -44,7 +44,12 @@ fn big_packet(k: usize, salt: usize) -> Vec<u8> {
         7 => fixed_distinct(5, 1, salt),
         // a degenerate but accepted options template (no scope field, no option field) and data for it
         8 => v9_packet(&V9Pkt::new(vec![V9Set::OptTpl(vec![V9OptTpl { id: 4500, scope: vec![], opts: vec![] }], 0)])),
-        _ => v9_packet(&V9Pkt::new(vec![V9Set::Data(4500, body[..4].to_vec())])),
+        9 => v9_packet(&V9Pkt::new(vec![V9Set::Data(4500, body[..4].to_vec())])),
+        // one id announced as an options template in two layouts, and as a plain template: within one call and across calls
+        // the LATEST announcement governs the data that follows it
+        10 => v9_packet(&V9Pkt::new(vec![V9Set::OptTpl(vec![V9OptTpl { id: 4600, scope: vec![fs(1, 4)], opts: vec![fs(34, 4), fs(36, 4)] }], 0), V9Set::Data(4600, body[..12].to_vec())])),
+        11 => v9_packet(&V9Pkt::new(vec![V9Set::OptTpl(vec![V9OptTpl { id: 4600, scope: vec![fs(2, 2)], opts: vec![fs(34, 2), fs(36, 2)] }], 0), V9Set::Data(4600, body[..12].to_vec())])),
+        _ => v9_packet(&V9Pkt::new(vec![V9Set::Tpl(vec![V9Tpl { id: 4600, fields: vec![fs(8, 4), fs(7, 2)] }], 0), V9Set::Data(4600, body[..12].to_vec())])),
     }
 }
 
@@ -117,7 +122,7 @@ pub fn spaces(tier: &str) -> Vec<Box<dyn Space>> {
         let maxlen = 4;
         let nl = list_count(BIG, maxlen);
         v.push(space(
-            "all-sequences<=4-over-10-packet-large-cache-menu x all-partitions",
+            "all-sequences<=4-over-13-packet-large-cache-menu x all-partitions",
             nl,
             move |i| {
                 let seq = list_at(BIG, maxlen, i);
@@ -185,7 +190,7 @@ pub fn run(tier: &str) -> i32 {
         prop: "C11".into(),
         tier: tier.into(),
         level: "model_checking",
-        rule: "every sequence of 1..=5 packets (thorough: also every sequence of 6 over a 10-packet sub-menu) over the 17-packet self-delimiting menu (V5x0, V5x2, V7x1, V9-T, V9-D, V9-TD, V9-OT+OD, IPFIX-T, IPFIX-D, IPFIX-TD, IPFIX-T', IPFIX-D(absent id), IPFIX header only, V9 count 0, V7x0, V9 and IPFIX data-then-redefinition), each under ALL 2^(n-1) partitions into consecutive calls on a fresh parser; sequences whose one-per-call run contains an error element are outside the domain (tagged, not judged) unless the failing packet is the last one of the sequence; plus every sequence of <= 4 packets over a 10-packet large-cache menu (1 100 V9 templates in one flowset, 1 100 IPFIX template sets, 1 100 V9 options templates, data for the first and last id, V5, a V9 options template without scope and options and data for it) under all partitions, and maximal chains up to the datagram limit and of about 150 KB (all-in-one vs one-per-call). Oracle: canonical dump of the concatenated results and final cache snapshot identical to one-packet-per-call delivery. A sequence is distinct by the hash of its one-per-call result".into(),
+        rule: "every sequence of 1..=5 packets (thorough: also every sequence of 6 over a 10-packet sub-menu) over the 17-packet self-delimiting menu (V5x0, V5x2, V7x1, V9-T, V9-D, V9-TD, V9-OT+OD, IPFIX-T, IPFIX-D, IPFIX-TD, IPFIX-T', IPFIX-D(absent id), IPFIX header only, V9 count 0, V7x0, V9 and IPFIX data-then-redefinition), each under ALL 2^(n-1) partitions into consecutive calls on a fresh parser; sequences whose one-per-call run contains an error element are outside the domain (tagged, not judged) unless the failing packet is the last one of the sequence; plus every sequence of <= 4 packets over a 13-packet large-cache menu (one id announced as an options template in two layouts and as a plain template, each with data; 1 100 V9 templates in one flowset, 1 100 IPFIX template sets, 1 100 V9 options templates, data for the first and last id, V5, a V9 options template without scope and options and data for it) under all partitions, and maximal chains up to the datagram limit and of about 150 KB (all-in-one vs one-per-call). Oracle: canonical dump of the concatenated results and final cache snapshot identical to one-packet-per-call delivery. A sequence is distinct by the hash of its one-per-call result".into(),
         bounds: json!({"sequence_len": if thorough {"5 over 17 packets + 6 over 10 packets"} else {"5 over 17 packets"}, "menu": menu::NAMES[..menu::SELF_DELIMITING].to_vec(), "partitions": "all"}),
         assumptions: vec![],
         trusted_base: vec!["c11::judge".into()],
